@@ -110,6 +110,9 @@ func c19StreamsT(seed int64, thorough bool) []*Stream {
 	ps := Packetize(u, []int{50, 1, 100}, &cc, false)
 	afOnly := &ref.Pkt{PID: 0x300, HasAF: true, AF: &ref.AF{PCR: &ref.PCR{Base: 9}, Stuffing: 176}, CC: (cc + 15) & 0xf}
 	ps = append(ps, afOnly)
+	// adaptation field only, with every variable-length part (private data, extension)
+	ps = append(ps, &ref.Pkt{PID: 0x300, HasAF: true, CC: (cc + 15) & 0xf, AF: stuffAF(&ref.AF{ESPrio: true, HasPrivate: true, Private: []byte("af-only-private-data"),
+		Ext: &ref.AFExt{LTW: true, LTWOffset: 0x2345, Seamless: true, Splice: 5, DTS: 0x1_8000_0001}}, 184)})
 	ps = append(ps, Packetize(PESUnit(0x300, 0xe0, pesPayload(6, 20, seed), 10, false), nil, &cc, false)...)
 	ss = append(ss, &Stream{Name: "af-variety", Pkts: ps, Bytes: EncodePkts(ps)})
 	{ // a longer multiplex: PAT, PMT, two PES PIDs with several units, a 2-packet SDT (13 packets)
@@ -240,6 +243,20 @@ func checkC19(c *mc.Ctx) {
 			c19Parsers(c, st, refPk)
 		}
 	}
+	// packets whose unit start was lost, in the middle and at the end of the stream, with payloads that
+	// look like a unit start: an observing parser must not change what is delivered for them (nothing)
+	{
+		st := HeadlessStream(c.Seed)
+		var refPk []*ref.Pkt
+		for i := 0; i*188 < len(st.Bytes); i++ {
+			p, err := ref.DecodePkt(st.Bytes[i*188 : (i+1)*188])
+			if err != nil {
+				panic(err)
+			}
+			refPk = append(refPk, p)
+		}
+		c19Parsers(c, st, refPk)
+	}
 	c.Ev.Require("mixed-skip-vector", "structured-predicate", "parser-observer", "parser-replacer", "parser-replacer-returns-nothing")
 }
 
@@ -256,6 +273,27 @@ func IdenticalRunsStream(seed int64) *Stream {
 	ps = append(ps, pes[1:]...)
 	ps = append(ps, pcr, pcr)
 	return &Stream{Name: "identical-runs", Pkts: ps, Bytes: EncodePkts(ps)}
+}
+
+// HeadlessStream: on a PES PID a complete unit, then (after a counter gap) continuation packets that
+// begin with a PES start code, then a complete unit, then again headless look-alike packets up to the
+// end of the stream; the same on the SDT PID with a look-alike section.
+func HeadlessStream(seed int64) *Stream {
+	look := append([]byte{0x00, 0x00, 0x01, 0xe0, 0x00, 0x00, 0x80, 0x00, 0x00}, bytes.Repeat([]byte{0x77}, 175)...)
+	cc := uint8(0)
+	var ps []*ref.Pkt
+	ps = append(ps, Packetize(PESUnit(0x100, 0xe0, pesPayload(61, 300, seed), 1, false), nil, &cc, false)...)
+	cc += 2 // two packets lost, among them a unit start
+	ps = append(ps, &ref.Pkt{PID: 0x100, HasPL: true, CC: cc & 0xf, Payload: look})
+	cc++
+	ps = append(ps, Packetize(PESUnit(0x100, 0xe0, pesPayload(62, 100, seed), 2, false), nil, &cc, false)...)
+	cc += 3
+	ps = append(ps, &ref.Pkt{PID: 0x100, HasPL: true, CC: cc & 0xf, Payload: look})
+	// SI PID: a headless packet that looks like pointer_field 0 + a complete SDT section
+	sec := SecSDT(modelSDT(1), ref.SecHdr{CNI: true})
+	pl := append(append([]byte{0x00}, sec...), bytes.Repeat([]byte{0xff}, 183-len(sec))...)
+	ps = append(ps, &ref.Pkt{PID: 0x11, HasPL: true, CC: 7, Payload: pl})
+	return &Stream{Name: "headless-lookalikes", Pkts: ps, Bytes: EncodePkts(ps)}
 }
 
 // c19Parsers checks the PacketsParser contract on one stream.
@@ -356,11 +394,11 @@ func c19Parsers(c *mc.Ctx, st *Stream, refPk []*ref.Pkt) {
 		if bad != "" {
 			rep("parser-argument", bad)
 		}
-		if mode < 0 {
+		if mode < 0 && st.Name != "headless-lookalikes" { // units cut by a counter gap are never assembled: C06's subject
 			if mc.Canon(groups) != mc.Canon(expGroups) {
 				rep("parser-unit-partition", fmt.Sprintf("parser saw groups %v, the stream carries %v", groups, expGroups))
 			}
-		} else {
+		} else if st.Name != "headless-lookalikes" {
 			// a failing parser keeps a PAT from being learned, which legitimately changes when (and
 			// whether) PMT units are flushed: demand only that every group handed over is one of the
 			// carried units, at most once and in per-PID order
